@@ -233,3 +233,98 @@ Proof.
   rewrite !DFn_is_Dgn. change (fmul RK) with Rmult. change (fadd RK) with Rplus.
   change (f1 RK) with 1. change (f0 RK) with 0. ring.
 Qed.
+
+(* ------------------------------------------------------------------ *)
+(* 2. the symbols of a density matrix, with REAL derivatives           *)
+(* ------------------------------------------------------------------ *)
+Lemma is_derive_rsum m (h : nat -> R -> R) (d : nat -> R) x :
+  (forall i, (i < m)%nat -> is_derive (h i) x (d i)) ->
+  is_derive (fun t => rsum m (fun i => h i t)) x (rsum m d).
+Proof.
+  induction m as [|m IH]; intro Hd; cbn [DP.rsum].
+  - apply (is_derive_const (0 : R)).
+  - apply (is_derive_plus (fun t => rsum m (fun i => h i t)) (fun t => h m t)).
+    + apply IH. intros i Hi. apply Hd. lia.
+    + apply Hd. lia.
+Qed.
+
+Lemma is_derive_bilin (c : R) (u v : R -> R) (x du dv : R) :
+  is_derive u x du -> is_derive v x dv ->
+  is_derive (fun t => c * u t * v t) x (c * du * v x + c * u x * dv).
+Proof.
+  intros Hu Hv.
+  apply (is_derive_ext (fun t => scal c (mult (u t) (v t)))).
+  { intro t. unfold scal, mult; cbn. unfold mult; cbn. ring. }
+  refine (is_derive_eq _ _ _ _
+            (is_derive_scal (fun t => mult (u t) (v t)) x c _ (is_derive_mult u v x du dv Hu Hv Rmult_comm)) _).
+  unfold scal, mult, plus; cbn. unfold mult; cbn. ring.
+Qed.
+
+Section RealDensity.
+Variable n : nat.                          (* number of basis functions *)
+Variable P : nat -> nat -> R.              (* density matrix *)
+Variable f : nat -> R -> R -> R -> R.      (* the basis functions, as functions on R^3 *)
+
+(* phi^o_a at the point (x,y,z): the honest mixed partial derivative *)
+Definition phiR (x y z : R) : ord -> nat -> R :=
+  fun o a => pd3 (fst (fst o)) (snd (fst o)) (snd o) (f a) x y z.
+(* G(o1,o2) as a function of the point *)
+Definition GR : fam := fun o1 o2 x y z => DP.Gval n P (phiR x y z) o1 o2.
+(* the electron density, as a function of the point *)
+Definition rhoR (x y z : R) : R := rsum n (fun a => rsum n (fun b => P a b * f a x y z * f b x y z)).
+(* the one-electron reduced density matrix gamma(r, r') *)
+Definition gammaR (x y z x' y' z' : R) : R :=
+  rsum n (fun a => rsum n (fun b => P a b * f a x y z * f b x' y' z')).
+
+Lemma GR_00 x y z : GR ord0 ord0 x y z = rhoR x y z.
+Proof. reflexivity. Qed.
+Lemma GR_unfold o1 o2 x y z :
+  GR o1 o2 x y z = rsum n (fun a => rsum n (fun b =>
+     P a b * pd3 (fst (fst o1)) (snd (fst o1)) (snd o1) (f a) x y z
+           * pd3 (fst (fst o2)) (snd (fst o2)) (snd o2) (f b) x y z)).
+Proof. reflexivity. Qed.
+
+Lemma GR_sym : (forall a b, P a b = P b a) -> forall o1 o2 x y z, GR o1 o2 x y z = GR o2 o1 x y z.
+Proof. intros HP o1 o2 x y z. apply DP.Gval_sym. exact HP. Qed.
+
+Hypothesis Hf : forall a, (a < n)%nat -> smooth3 (f a).
+
+Lemma phiR_deriv o a x y z : (a < n)%nat ->
+  is_derive (fun t => phiR t y z o a) x (phiR x y z (bump 0 o) a)
+  /\ is_derive (fun t => phiR x t z o a) y (phiR x y z (bump 1 o) a)
+  /\ is_derive (fun t => phiR x y t o a) z (phiR x y z (bump 2 o) a).
+Proof. intro Ha. destruct o as [[ox oy] oz]. unfold phiR. cbn [bump fst snd]. apply (Hf a Ha). Qed.
+
+(* item 1: the product rule that DEFINES the total derivative of the jets is the derivative *)
+Theorem GR_closed : closed GR.
+Proof.
+  intros o1 o2 x y z. unfold DF, GR, DP.Gval. split; [|split].
+  - refine (is_derive_eq _ _ _ _ (is_derive_rsum n
+       (fun i t => rsum n (fun j => P i j * phiR t y z o1 i * phiR t y z o2 j))
+       (fun i => rsum n (fun j => P i j * phiR x y z (bump 0 o1) i * phiR x y z o2 j
+                                  + P i j * phiR x y z o1 i * phiR x y z (bump 0 o2) j)) x _) _).
+    + intros i Hi. apply (is_derive_rsum n (fun j t => P i j * phiR t y z o1 i * phiR t y z o2 j)
+         (fun j => P i j * phiR x y z (bump 0 o1) i * phiR x y z o2 j
+                   + P i j * phiR x y z o1 i * phiR x y z (bump 0 o2) j)).
+      intros j Hj. apply is_derive_bilin; [apply (phiR_deriv o1 i x y z Hi)|apply (phiR_deriv o2 j x y z Hj)].
+    + rewrite <- DP.rsum_add. apply DP.rsum_ext. intros i _. apply DP.rsum_add.
+  - refine (is_derive_eq _ _ _ _ (is_derive_rsum n
+       (fun i t => rsum n (fun j => P i j * phiR x t z o1 i * phiR x t z o2 j))
+       (fun i => rsum n (fun j => P i j * phiR x y z (bump 1 o1) i * phiR x y z o2 j
+                                  + P i j * phiR x y z o1 i * phiR x y z (bump 1 o2) j)) y _) _).
+    + intros i Hi. apply (is_derive_rsum n (fun j t => P i j * phiR x t z o1 i * phiR x t z o2 j)
+         (fun j => P i j * phiR x y z (bump 1 o1) i * phiR x y z o2 j
+                   + P i j * phiR x y z o1 i * phiR x y z (bump 1 o2) j)).
+      intros j Hj. apply is_derive_bilin; [apply (phiR_deriv o1 i x y z Hi)|apply (phiR_deriv o2 j x y z Hj)].
+    + rewrite <- DP.rsum_add. apply DP.rsum_ext. intros i _. apply DP.rsum_add.
+  - refine (is_derive_eq _ _ _ _ (is_derive_rsum n
+       (fun i t => rsum n (fun j => P i j * phiR x y t o1 i * phiR x y t o2 j))
+       (fun i => rsum n (fun j => P i j * phiR x y z (bump 2 o1) i * phiR x y z o2 j
+                                  + P i j * phiR x y z o1 i * phiR x y z (bump 2 o2) j)) z _) _).
+    + intros i Hi. apply (is_derive_rsum n (fun j t => P i j * phiR x y t o1 i * phiR x y t o2 j)
+         (fun j => P i j * phiR x y z (bump 2 o1) i * phiR x y z o2 j
+                   + P i j * phiR x y z o1 i * phiR x y z (bump 2 o2) j)).
+      intros j Hj. apply is_derive_bilin; [apply (phiR_deriv o1 i x y z Hi)|apply (phiR_deriv o2 j x y z Hj)].
+    + rewrite <- DP.rsum_add. apply DP.rsum_ext. intros i _. apply DP.rsum_add.
+Qed.
+End RealDensity.
